@@ -84,7 +84,7 @@ def _unix_poll_accept(ctx, a, c):
         return Enum("Poll", "Pending", 1, [])
     if l.outcome == "err":
         return Enum("Poll", "Ready", 0, [Enum("Result", "Err", 1, [Opaque("io::Error(listener)")])])
-    return Enum("Poll", "Ready", 0, [Enum("Result", "Ok", 0, [Agg("tuple", [Opaque("tokio UnixStream"), l.peer])])])
+    return Enum("Poll", "Ready", 0, [Enum("Result", "Ok", 0, [Agg("tuple", [TokioUnixStreamV(l.peer), l.peer])])])
 
 
 @model("SocketAddr::as_pathname", doc="std/tokio unix SocketAddr: Some(path) for a peer bound to a filesystem path")
@@ -251,10 +251,34 @@ def tcp_info(prog, obs):
                 "judge": lambda scn, out: out.get("result", "").startswith(("panic", "crash")) or out.get("server_alive") == "0" or int(out.get("served", "2")) < 2})
 
 
+class TokioUnixStreamV:
+    """the tokio stream of an accepted peer: remembers which address the peer is bound to"""
+
+    def __init__(self, peer):
+        self.peer = peer
+
+
+def _unix_addr_query(nm, answer):
+    def f(ctx, a, c):
+        st = deref(ctx, a[0])
+        if isinstance(st, Agg):
+            # hyperdriver's own UnixStream method of the same name: run it from MIR
+            return ctx.exec_fn(ctx.prog.find_one(r"stream::unix::<impl at src/stream/unix\.rs:\d+:\d+: \d+:\d+>::" + nm + "$"), [a[0]])
+        if not isinstance(st, TokioUnixStreamV):
+            raise Inconclusive(nm + " on " + repr(st))
+        return Enum("Result", "Ok", 0, [answer(st)])
+    return f
+
+
+model("UnixStream::peer_addr", doc="environment stub: tokio UnixStream::peer_addr of an accepted stream -> Ok(the address the peer is bound to); hyperdriver's own method of that name runs from MIR")(_unix_addr_query("peer_addr", lambda st: st.peer))
+model("UnixStream::local_addr", doc="environment stub: tokio UnixStream::local_addr of an accepted stream -> Ok(the server's own address, a UTF-8 path: the server's own configuration is not a client fault); hyperdriver's own method runs from MIR")(_unix_addr_query("local_addr", lambda st: UnixSockAddrV(True, z3.BoolVal(True))))
+
+
 def unix_accept(prog, obs):
     """`<UnixListener as Accept>::poll_accept`: whatever address the connecting peer is bound to, accepting
     it must not produce an error (an accept error ends the serving loop)"""
     f_acc = prog.find_one(r"stream::unix::<impl at src/stream/unix\.rs:\d+:\d+: \d+:\d+>::poll_accept$")
+    f_info = prog.find_one(r"stream::unix::<impl at src/stream/unix\.rs:\d+:\d+: \d+:\d+>::info$")
 
     def run(ctx):
         outcome = ctx.choose([(True, "ok"), (True, "err"), (True, "pending")], "the listener's own accept")
@@ -262,11 +286,16 @@ def unix_accept(prog, obs):
         named = ctx.choose([(True, False), (True, True)], "peer socket is bound to a path")
         l.peer = UnixSockAddrV(named, z3.Bool("peer_path_is_utf8"))
         ctx.l = l
-        return ctx.exec_fn(f_acc, [Ref(Cell(l, "listener")), Ref(Cell(Opaque("Context"), "cx"))])
+        r = ctx.exec_fn(f_acc, [Ref(Cell(l, "listener")), Ref(Cell(Opaque("Context"), "cx"))])
+        # the accept loop asks every accepted stream for its connection info (Acceptor::poll_accept ->
+        # Stream::new -> info(), or Serving::poll_once -> info()): that call must not panic either
+        if r.variant == "Ready" and r.f[0].variant == "Ok":
+            ctx.exec_fn(f_info, [Ref(Cell(r.f[0].f[0], "accepted"))])
+        return r
 
     def check(p):
         if p.outcome == "panic":
-            return [("accepting a Unix connection panics: " + str(p.value)[:80], False)]
+            return [("accepting a Unix connection (or asking the accepted stream for its connection info, as the accept loop does) panics: " + str(p.value)[:80], False)]
         r = p.value
         l = p.ctx.l
         if l.outcome == "pending":
